@@ -6,6 +6,7 @@ import (
 	"math"
 	"math/rand/v2"
 	"strings"
+	"time"
 
 	"chgosim/choice"
 	"chgosim/refproto"
@@ -48,6 +49,26 @@ var ServerSpellings = map[string][]string{
 	"DateTime":      {"DateTime('UTC')", "DateTime('Europe/Berlin')"},
 	"DateTime64(3)": {"DateTime64(3, 'UTC')", "DateTime64(3, 'Asia/Tokyo')"},
 	"DateTime64(9)": {"DateTime64(9, 'UTC')"},
+}
+
+// zones: ordinary IANA names, many of them, so that a process keeps meeting
+// zones it has not loaded yet (whatever the library shares between decoders
+// about a zone is then written while other decoders read it)
+var zones = []string{"Europe/Berlin", "Asia/Tokyo", "America/New_York", "Europe/London", "Europe/Moscow", "Asia/Shanghai", "Asia/Kolkata", "Australia/Sydney",
+	"America/Los_Angeles", "America/Chicago", "America/Sao_Paulo", "Africa/Cairo", "Africa/Johannesburg", "Asia/Dubai", "Asia/Singapore", "Asia/Seoul",
+	"Europe/Paris", "Europe/Madrid", "Europe/Rome", "Europe/Amsterdam", "Europe/Istanbul", "Europe/Kyiv", "Europe/Warsaw", "Europe/Lisbon",
+	"America/Denver", "America/Toronto", "America/Mexico_City", "America/Bogota", "America/Lima", "America/Santiago", "America/Anchorage", "Pacific/Auckland",
+	"Pacific/Honolulu", "Asia/Bangkok", "Asia/Jakarta", "Asia/Manila", "Asia/Karachi", "Asia/Tehran", "Asia/Kathmandu", "Atlantic/Reykjavik",
+	"Africa/Lagos", "Africa/Nairobi", "Asia/Tashkent", "Asia/Almaty", "Asia/Yekaterinburg", "Asia/Novosibirsk", "Asia/Vladivostok", "Australia/Perth"}
+
+func init() {
+	for _, z := range zones {
+		if _, err := time.LoadLocation(z); err != nil {
+			continue // not in this system's zone database
+		}
+		ServerSpellings["DateTime"] = append(ServerSpellings["DateTime"], "DateTime('"+z+"')")
+		ServerSpellings["DateTime64(3)"] = append(ServerSpellings["DateTime64(3)"], "DateTime64(3, '"+z+"')")
+	}
 }
 
 // ServerSpelling draws the way a server writes type t (often just t), applied to
